@@ -919,4 +919,76 @@ theorem residualV_eq (F : Fit) (g : List Rat) :
   | nil => rfl
   | cons m ms ih => simp only [List.map_cons, List.zipWith_cons_cons, ih]
 
+/-- **cost_is_sum_over_datasets (one model).** The sum of squares of the residual the code evaluates — grouped by
+    condition strings, each group evaluated with its first dataset's `Condition` — is the sum over ALL datasets of the
+    model, each once, of the sum of squares of its own block evaluated at its own direct reading of the global vector. -/
+theorem model_cost_is_sum_over_datasets (f : ModelFn) (m : ModelData) (uniq : List String) (hinj : CondInj m)
+    (hin : ∀ d ∈ m.data, NamesIn d.trans uniq) (g : List Rat) :
+    sumSq (m.residual f uniq g) =
+      (m.data.map fun d => sumSq (dataResidual f (localDirect d.trans uniq g) d)).sum := by
+  unfold ModelData.residual generateConditions
+  refine (sumSq_residualOf_filterMap f uniq g (groups m)).trans ?_
+  have hB : ∀ grp ∈ groups m, groupCost f uniq g grp =
+      (grp.map fun d => sumSq (dataResidual f (localDirect d.trans uniq g) d)).sum := by
+    intro grp hgrp
+    cases grp with
+    | nil => rfl
+    | cons r rest =>
+      show ((r :: rest).map fun d => sumSq (dataResidual f (getLocalParams (mkCondition r.trans uniq) g) d)).sum = _
+      congr 1
+      apply List.map_congr_left
+      intro d hd
+      obtain ⟨hr, hdm, hs⟩ := mem_groups m _ r d hgrp List.mem_cons_self hd
+      rw [mkCondition_congr _ _ uniq (hinj r hr d hdm hs), getLocalParams_mkCondition _ _ _ (hin d hdm)]
+  rw [List.map_congr_left hB]
+  unfold groups
+  rw [List.map_map]
+  exact sum_by_key m.data (fun d => (unique (m.data.map condString)).idxOf (condString d)) _ _
+    (fun d hd => List.idxOf_lt_length_of_mem ((mem_unique _ _).mpr (List.mem_map_of_mem hd)))
+
+/-- **cost_is_sum_over_datasets.** What the fit minimises is the sum over ALL datasets of ALL models — each exactly
+    once, whatever the grouping into conditions — of the squared residuals of that dataset evaluated at ITS OWN
+    reading of the global vector (shared name: the one entry; renamed: its own entry; constant: itself). -/
+theorem cost_is_sum_over_datasets (fs : List ModelFn) (F : Fit)
+    (hkeys : F.table.map (·.1) = globalNames F.models) (hinj : ∀ m ∈ F.models, CondInj m) (g : List Rat) :
+    sumSq (F.residualAt fs g) =
+      ((F.models.zip fs).map fun mf =>
+        (mf.1.data.map fun d =>
+          sumSq (dataResidual mf.2 (localDirect d.trans (globalNames F.models) g) d)).sum).sum := by
+  unfold Fit.residualAt
+  rw [sumSq_flatten, zipWith_eq_map_zip', List.map_map, hkeys]
+  congr 1
+  apply List.map_congr_left
+  intro mf hmf
+  have hm : mf.1 ∈ F.models := (List.of_mem_zip hmf).1
+  exact model_cost_is_sum_over_datasets mf.2 mf.1 _ (hinj _ hm)
+    (fun d hd => namesIn_globalNames F.models mf.1 hm d hd) g
+
+/-- …and when the table holds values given by NAME (`gen`), the cost at the table values is the sum over all datasets
+    of the squared residuals at the dataset's by-name reading of `gen`. -/
+theorem cost_by_name (fs : List ModelFn) (F : Fit)
+    (hkeys : F.table.map (·.1) = globalNames F.models) (hinj : ∀ m ∈ F.models, CondInj m)
+    (gen : String → Rat) (hgen : ∀ e ∈ F.table, e.2.value = gen e.1) :
+    sumSq (F.residualAt fs F.values) =
+      ((F.models.zip fs).map fun mf =>
+        (mf.1.data.map fun d => sumSq (dataResidual mf.2 (localByName d.trans gen) d)).sum).sum := by
+  rw [cost_is_sum_over_datasets fs F hkeys hinj]
+  congr 1
+  apply List.map_congr_left
+  intro mf hmf
+  have hm : mf.1 ∈ F.models := (List.of_mem_zip hmf).1
+  congr 1
+  apply List.map_congr_left
+  intro d hd
+  have := localDirect_of_table F.table gen hgen d.trans
+    (by rw [hkeys]; exact namesIn_globalNames F.models mf.1 hm d hd)
+  rw [hkeys] at this
+  show sumSq (dataResidual mf.2 (localDirect d.trans (globalNames F.models) (F.table.map (·.2.value))) d) = _
+  rw [this]
+
+/-- non-vacuity: the worked instance at the start (0, 0, 0): 1² + 3² from `d1`, 1² + 6² from `d2` -/
+example : sumSq ((exG 0 0 0).residualAt [polyFn] [0, 0, 0]) = (1 + 9) + (1 + 36) := by
+  rw [cost_is_sum_over_datasets [polyFn] (exG 0 0 0) (by decide +kernel) ex_condInj]
+  decide +kernel
+
 end Verif.C14
